@@ -325,7 +325,7 @@ pub fn run(args: &Args) -> i32 {
         }
     }
     // generated cheap scenarios (no volume): see `generated`
-    let ng = args.scale(6_000, 200_000);
+    let ng = args.scale(20_000, 200_000);
     for g in 0..ng {
         idx += 1;
         if !args.mine(idx) {
